@@ -642,3 +642,12 @@ _vg_more = [hist("inv-d1r-valgrind", "prod", 1, reduced=1, family="inv", weight=
             fam("factor-d3pm-u1-valgrind", "prod", "factor", {"dim": 3, "alpha": "pm", "upd": 1, "set": "012345"}, weight=2, range=[0, 20000], **_VG),
             fam("meta-S0q1-d1-valgrind", "prodl1", "meta", {"fam": "S0q1", "depth": 1}, weight=2, range=[0, 30000], **_VG)]
 PLANS["C17"]["thorough"] = PLANS["C17"]["thorough"] + _vg_more
+
+# histories shaped by a pattern: S = one of the 4 solves, A = any of the 66 operations
+_SAA = hist("hist-SAA-prod", "prod", 3, weight=2, opts={"depth": 3, "reduced": 0, "pat": "SAA"})
+_ASAS = hist("hist-ASAS-prod", "prod", 4, weight=8, opts={"depth": 4, "reduced": 0, "pat": "ASAS"})
+for _pid in ("C05", "C06"):
+    PLANS[_pid]["quick"] = PLANS[_pid]["quick"] + [_SAA]
+    PLANS[_pid]["thorough"] = PLANS[_pid]["thorough"] + [_SAA, _ASAS]
+    PLANS[_pid]["bounds"] = dict(PLANS[_pid]["bounds"], quick=PLANS[_pid]["bounds"]["quick"] + "; solve ; any ; any over the full alphabet (174k histories)", thorough=PLANS[_pid]["bounds"]["thorough"] + "; any ; solve ; any ; solve over the full alphabet (697k histories)")
+_dl("C05", thorough=3000); _dl("C06", thorough=3000)
